@@ -302,7 +302,8 @@ def run_job(job):
                 entry["trace"] = [(tid, [(show(n), n.label) for n in path]) for tid, ch, path in pre_steps + steps]
                 entry["model_obs"] = model_observations(system, final, U, lo)
                 for _attempt in range(3):
-                    real = replay.replay(read_source(), NORMALISED, U, clients, pre_steps + steps, pool_args=pool_args)
+                    real = replay.replay(read_source(), NORMALISED, U, clients, pre_steps + steps, pool_args=pool_args,
+                                             start_failures=system.init.get("start_failures_left"))
                     entry["real"] = real
                     entry["diffs"] = conforms(entry["model_obs"], real, U)
                     if not entry["diffs"]:
@@ -324,7 +325,8 @@ def run_job(job):
                     # (a loaded machine can make a 50 ms pool time-out or a guard interval
                     # misfire: a non-conforming replay is repeated before it counts)
                     for _attempt in range(3):
-                        real = replay.replay(read_source(), NORMALISED, U, clients, pre_steps + steps, pool_args=pool_args)
+                        real = replay.replay(read_source(), NORMALISED, U, clients, pre_steps + steps, pool_args=pool_args,
+                                             start_failures=system.init.get("start_failures_left"))
                         tw["diffs"] = conforms(model_observations(system, states[-1], U, lo), real, U)
                         if not tw["diffs"]:
                             break
